@@ -1,7 +1,7 @@
 """C10 - cancellation stops scheduling and ends in canceled."""
 from ovf import workloads
 from ovf.props.c03 import parked  # noqa: F401
-from ovf.props.common import batches, family_slices, scale, ASSUME_SIM
+from ovf.props.common import batches, family_slices, scale, ASSUME_SIM, positions
 from ovf.sim import explore
 from ovf.sim.provider import Monitor, h64
 
@@ -143,7 +143,7 @@ def cancel_sweep(job):
         base = b.script
         C["base_histories"] = C.get("base_histories", 0) + 1
         k = 0
-        for pos in range(1, len(base) + 1):
+        for pos in positions(base):
             for form in range(9):
                 k += 1
                 if only and k != only[1]:
